@@ -103,3 +103,21 @@ func recursiveFunctions(e *Engine) [][]*ssa.Function {
 	sort.Slice(sccs, func(i, j int) bool { return funcKey(sccs[i][0]) < funcKey(sccs[j][0]) })
 	return sccs
 }
+
+// sccIndex maps every function on a call-graph cycle to the number of its cycle (computed once).
+func (e *Engine) sccIndex() map[*ssa.Function]int {
+	if e.sccOf == nil {
+		e.sccOf = map[*ssa.Function]int{}
+		for i, comp := range recursiveFunctions(e) {
+			for _, f := range comp {
+				e.sccOf[f] = i + 1
+			}
+		}
+	}
+	return e.sccOf
+}
+
+func (e *Engine) sameCycle(a, b *ssa.Function) bool {
+	m := e.sccIndex()
+	return a != nil && b != nil && m[a] != 0 && m[a] == m[b]
+}
